@@ -418,7 +418,12 @@ def sugar_models(decls, cs, limit=300000):
 def make_mock_sugar(rng, log=None):
     """An external solver written in Python from the documentation: reads the text, solves by enumeration, prints the
     reply per CspuzSugarInterface.java.  WHICH model it prints is drawn from `rng`."""
+    count = [0]
+
     def solver(desc):
+        count[0] += 1
+        if count[0] > 60:     # the refinement loop of Solver.solve needs at most #keys + 2 calls
+            raise RuntimeError("the external solver was called more than 60 times in one session")
         decls, cs, keys = read_sugar(desc)
         models = sugar_models(decls, cs)
         ints = [d for d in decls if d[0] == "i"]
@@ -511,7 +516,7 @@ def session_custom(rng):
     g = dslgen.Gen(rng, None, bools, ints)
     cs = []
     for _ in range(rng.randint(0, 3)):
-        cs.append(g.bool_expr(rng.randint(0, 2)) if (bools or ints) else True)
+        cs.append(g.bool_expr(rng.randint(0, 2))[0] if (bools or ints) else True)
     return vs, cs, "custom-ids"
 
 
@@ -1118,8 +1123,14 @@ def _e2e(rng, vs, cs, keys, name):
         return "e2e:find", f"find_answer({name}) returned {res[0]}, the program has {len(models)} models", name
     if models:
         asg = {vname(v): v.sol for v in vs}
-        if not all(exprio.ev(t, asg) is True for t in trees):
-            return "e2e:find", f"find_answer({name}) left sol = {asg} which is not a model", name
+        try:
+            ok = all(exprio.ev(t, asg) is True for t in trees)
+        except Exception:
+            ok = False
+        from cspuz.expr import BoolVar
+        typed = all((type(v.sol) is bool) if isinstance(v, BoolVar) else (type(v.sol) is int) for v in vs)
+        if not ok or not typed:
+            return "e2e:find", f"find_answer({name}) left sol = {asg} which is not a (well-typed) model", name
     _, res = real_solver_run(name, vs, cs, keys, "solve", make_mock_sugar(rng))
     if res[0] == "err":
         return "e2e:solve", f"solve({name}) raised {res[1]} with a correct external solver", name
@@ -1137,6 +1148,8 @@ def _e2e(rng, vs, cs, keys, name):
 
 def replay(ctx, data):
     rng = ctx.rng
+    if "vars" not in data:
+        return None
     vs, cs = build_case(data)
     keys = data.get("keys")
     name = data.get("backend", "sugar_extended")
